@@ -244,7 +244,12 @@ func (v *FnVC) callCommon(c *ssa.CallCommon, val ssa.Value, pos token.Pos, how s
 			v.assume(v.specBoolE(cj, post, cl))
 		}
 	}
-	v.ghostAtCall(site, "after", pnames, args)
+	if len(results) > 0 {
+		// the callee's first result is visible to `after` anchors as call_result
+		v.ghostAtCall(site, "after", append(append([]string{}, pnames...), "__call_result"), append(append([]Term{}, args...), results[0]))
+	} else {
+		v.ghostAtCall(site, "after", pnames, args)
+	}
 	return results
 }
 
